@@ -87,7 +87,10 @@ inline std::vector<Doc> loadCorpusFile(const std::string &path)
         if (line.isEmpty() || line.startsWith('#')) continue;
         int t = line.indexOf('\t');
         if (t <= 0) continue;
-        out.push_back({ line.left(t).toStdString(), unescLine(line.mid(t + 1)) });
+        QByteArray rest = line.mid(t + 1);
+        int t2 = rest.indexOf('\t');           // optional third column: free comment
+        if (t2 >= 0) rest = rest.left(t2);
+        out.push_back({ line.left(t).toStdString(), unescLine(rest) });
     }
     return out;
 }
@@ -272,13 +275,18 @@ struct Summary {
     long canaries = 0;        // elements {urn:canary}canary
     long elements = 0;
     long maxDepth = 0;
+    // features the library's own output form never has (used to scope the verbatim-container oracle)
+    long emptyAttrs = 0;      // attributes with an empty value
+    long mixed = 0;           // elements with both non-blank text and element children
+    long nsUndeclared = 0;    // elements without namespace inside a parent that has one (xmlns="")
+    long prefixed = 0;        // prefixed element or attribute names other than xml:
 };
 
 inline Summary summarizeElement(const QDomElement &root)
 {
     Summary s;
     s.wellFormed = true;
-    struct Fr { QDomElement e; QDomNode next; std::vector<H128> ko, ks; QString pendingText; long depth; };
+    struct Fr { QDomElement e; QDomNode next; std::vector<H128> ko, ks; QString pendingText; long depth; bool hasText = false, hasElem = false; };
     std::vector<Fr> st;
     auto push = [&](const QDomElement &e, long depth) {
         Fr f; f.e = e; f.next = e.firstChild(); f.depth = depth;
@@ -287,9 +295,12 @@ inline Summary summarizeElement(const QDomElement &root)
         if (depth > s.maxDepth) s.maxDepth = depth;
         QString ln = e.localName().isEmpty() ? e.tagName() : e.localName();
         if (ln == u"canary" && e.namespaceURI() == u"urn:canary") s.canaries++;
+        if (!e.prefix().isEmpty()) s.prefixed++;
+        if (e.namespaceURI().isEmpty() && e.parentNode().isElement() && !e.parentNode().namespaceURI().isEmpty()) s.nsUndeclared++;
     };
     auto flushText = [](Fr &f) {
         if (f.pendingText.isEmpty()) return;
+        if (!f.pendingText.trimmed().isEmpty()) f.hasText = true;
         H128 h; h.mix(0x7e47ull); h.mixStr(f.pendingText);
         f.ko.push_back(h); f.ks.push_back(h);
         f.pendingText.clear();
@@ -301,11 +312,12 @@ inline Summary summarizeElement(const QDomElement &root)
         if (!f.next.isNull()) {
             QDomNode c = f.next;
             f.next = c.nextSibling();
-            if (c.isElement()) { flushText(f); long d = f.depth + 1; push(c.toElement(), d); }
+            if (c.isElement()) { flushText(f); f.hasElem = true; long d = f.depth + 1; push(c.toElement(), d); }
             else if (c.isText() || c.isCDATASection()) f.pendingText += c.nodeValue();
             continue;
         }
         flushText(f);
+        if (f.hasText && f.hasElem) s.mixed++;
         // close element
         const QDomElement &e = f.e;
         H128 head; head.mix(0xE1ull);
@@ -316,6 +328,8 @@ inline Summary summarizeElement(const QDomElement &root)
         for (int i = 0; i < am.count(); i++) {
             auto a = am.item(i).toAttr();
             if (a.namespaceURI() == NS_XMLNS || a.name() == u"xmlns" || a.name().startsWith(u"xmlns:")) continue;
+            if (a.value().isEmpty()) s.emptyAttrs++;
+            if (!a.prefix().isEmpty() && a.prefix() != u"xml") s.prefixed++;
             H128 h; h.mix(0xA7ull);
             h.mixStr(a.localName().isEmpty() ? a.name() : a.localName());
             h.mixStr(a.namespaceURI());
@@ -834,7 +848,8 @@ struct Pool {
                     if (ef.open(QIODevice::ReadOnly)) {
                         QByteArray all = ef.size() > 64 * 1024 * 1024 ? ef.read(64 * 1024 * 1024) : ef.readAll();
                         int ei = all.indexOf("ERROR: "); if (ei < 0) ei = all.indexOf("runtime error: ");
-                        if (ei > 200) ei -= 200; if (ei < 0) ei = 0;
+                        if (ei < 0) ei = 0;
+                        ei = all.lastIndexOf('\n', ei) + 1;   // start of that line (UBSan puts file:line:col in front of the message)
                         QByteArray head = all.mid(ei, 3000);
                         r.errText = head.toStdString();
                         if (all.size() > ei + 3000) r.errText += "\n[...]\n" + all.right(std::min<int>(3000, all.size() - ei - 3000)).toStdString();
